@@ -206,17 +206,44 @@ func runC28(c *Ctx) {
 	var reuseMap ssa.Value
 	var reuseUpd []ssa.Instruction
 	idT := P.NamedType(sun + ".mountEntryId")
-	for _, b := range nc.Blocks {
-		for _, in := range b.Instrs {
-			if mu, ok := in.(*ssa.MapUpdate); ok {
-				if mt, ok := mu.Map.Type().Underlying().(*types.Map); ok && types.Identical(mt.Key(), idT) {
-					reuseMap = Strip(mu.Map)
-					reuseUpd = append(reuseUpd, mu)
+	// (several maps may be keyed by mountEntryId: the reuse map is the one the Keep decision of the
+	// unmount pass looks at)
+	{
+		keepK0 := P.Const(sun + ".Keep")
+		var keepLoops []*RangeLoop
+		for _, st := range StoresToField(nc, P.Field(sun+".Change.Action")) {
+			if VConstObj(keepK0)(st.Val) {
+				if l := LoopContaining(nc, st); l != nil {
+					keepLoops = append(keepLoops, l)
+				}
+			}
+		}
+		for _, b := range nc.Blocks {
+			for _, in := range b.Instrs {
+				lk, ok := in.(*ssa.Lookup)
+				if !ok {
+					continue
+				}
+				if mt, ok := lk.X.Type().Underlying().(*types.Map); !ok || !types.Identical(mt.Key(), idT) {
+					continue
+				}
+				l := LoopContaining(nc, lk)
+				for _, kl := range keepLoops {
+					if l != nil && l.Header == kl.Header {
+						reuseMap = Strip(lk.X)
+					}
 				}
 			}
 		}
 	}
-	if reuseMap == nil {
+	for _, b := range nc.Blocks {
+		for _, in := range b.Instrs {
+			if mu, ok := in.(*ssa.MapUpdate); ok && reuseMap != nil && Strip(mu.Map) == reuseMap {
+				reuseUpd = append(reuseUpd, mu)
+			}
+		}
+	}
+	if reuseMap == nil || len(reuseUpd) == 0 {
 		c.Undecided(sun+".neededChanges#reuse-map", nc.Pos(), "the reuse map was not found")
 		return
 	}
